@@ -737,6 +737,23 @@ func runC09(c *Ctx) {
 		}
 	}
 
+	// R4 (continued): the FIND_NODE response does not echo the request key (its size bound rests on
+	// K+1 bounded records and nothing else; the key is the one request field of unbounded length)
+	{
+		f := c.Fn("(*dht.IpfsDHT).handleFindPeer")
+		c.Rule("R4")
+		nm := f.Calls("dht/pb.NewMessage")
+		c.Check(K(f.Name, "builds response"), f.Pos(), len(nm) >= 1, "handleFindPeer builds its response with pb.NewMessage", "no NewMessage call")
+		for _, call := range nm {
+			c.Check(K(f.Name, "response carries no key"), call.Pos(), len(call.Args) == 3 && isNil(f.Info(), call.Args[1]), "the FIND_NODE response is built with a nil key", "NewMessage key argument is "+short(call.Args[1]))
+		}
+	}
+
+	// R12 the switch to client mode resets every inbound DHT stream (a handler parked on one has
+	// already passed its mode check and would serve one more request) — C13.R3
+	c.Rule("R12")
+	c.Share("C13", "R3")
+
 	// R11 no handler path leaves a store or sender mutex held
 	c.Rule("R11")
 	{
